@@ -42,7 +42,9 @@ func scalarAV(k protoreflect.Kind, v protoreflect.Value) AV {
 	panic("msgdrv: scalarAV: unexpected kind " + k.String())
 }
 
-func le32(a []int) uint32 { return uint32(a[0]) | uint32(a[1])<<8 | uint32(a[2])<<16 | uint32(a[3])<<24 }
+func le32(a []int) uint32 {
+	return uint32(a[0]) | uint32(a[1])<<8 | uint32(a[2])<<16 | uint32(a[3])<<24
+}
 func le64(a []int) uint64 {
 	var v uint64
 	for i := 0; i < 8; i++ {
